@@ -62,6 +62,8 @@ def run_config(ctx, rep, cfg, F):
         name = where if isinstance(where, str) else str(where)
         if not ("mut" in name.lower() or "Mut" in name):
             continue
+        if name in ("TrieViewMut::set", "TrieViewMut::remove"):
+            continue     # value insertion / removal through a view is not a traversal (C04 / C11 / C18 speak about it)
         for p in paths:
             if p.result[0] not in ("ret", "cut"):
                 continue
